@@ -1,6 +1,6 @@
 (* C15 — proofs, part 8: the Table invariant through commit / invalidate, and convergence of a whole Apply(). *)
 From Coq Require Import String List NArith ZArith Arith Bool Lia.
-From Verif.C15 Require Import Model Spec Proofs ProofsForeign ProofsNoRewrite ProofsConv ProofsConv2 ProofsLoad.
+From Verif.C15 Require Import Model Spec Proofs ProofsForeign ProofsNoRewrite ProofsConv ProofsConv2 ProofsConv3 ProofsLoad.
 Import ListNotations.
 
 Lemma invalidate_winv : forall cf t, winv cf t -> winv cf (invalidate t).
@@ -105,12 +105,12 @@ Qed.
 Definition no_racing (fs : faults) : Prop := forall rf, In rf (f_restores fs) -> rf_edits rf = [].
 
 Lemma apply_loop_converges : forall cf dall attempts fs t k inputs,
-  cf_nft cf = false -> winv cf t -> t_insync t = false -> no_racing fs -> noforge cf t k ->
+  winv cf t -> t_insync t = false -> no_racing fs -> noforge cf t k ->
   let r := apply_loop cf dall attempts fs t k inputs in
   winv cf (ao_table r) /\
   (ao_result r = Success -> forall c, get c (ao_kernel r) = tgt cf t k c).
 Proof.
-  induction attempts as [|a IH]; intros fs t k inputs Hn W Hs Hr NF r; subst r.
+  induction attempts as [|a IH]; intros fs t k inputs W Hs Hr NF r; subst r.
   - simpl. split; auto. discriminate.
   - cbn [apply_loop]. rewrite Hs.
     set (sv := try_saves 4 (f_saves fs)).
@@ -125,7 +125,7 @@ Proof.
     2:{ rewrite apply_loop_stuck; auto; try apply Ld. simpl. split; auto. discriminate. }
     destruct cs as [|cm cs].
     { simpl. split. apply commit_winv; auto. intros _ c. rewrite <- Ht.
-      eapply (update_converges' cf dall t1 k [] k); eauto. }
+      eapply (update_converges_any cf dall t1 k [] k); eauto. }
     set (rf := match f_restores fs with r :: _ => r | [] => {| rf_edits := []; rf_fail := false |} end).
     assert (Hrf : rf_edits rf = []).
     { unfold rf. destruct (f_restores fs) as [|r0 rs] eqn:E; auto. apply Hr. rewrite E. simpl; auto. }
@@ -133,11 +133,11 @@ Proof.
     destruct (if rf_fail rf then None else exec dall k (cm :: cs)) as [k2|] eqn:Ex.
     + simpl. split. apply commit_winv; auto. intros _ c. rewrite <- Ht.
       destruct (rf_fail rf); try discriminate.
-      eapply (update_converges' cf dall t1 k (cm :: cs) k2); eauto.
+      eapply (update_converges_any cf dall t1 k (cm :: cs) k2); eauto.
     + assert (Hr' : no_racing {| f_saves := snd sv; f_restores := tl (f_restores fs) |}).
       { intros x Hx. simpl in Hx. apply Hr. destruct (f_restores fs); simpl in *; auto. }
       specialize (IH {| f_saves := snd sv; f_restores := tl (f_restores fs) |} (invalidate t1) k (inputs ++ [cm :: cs])
-                     Hn (invalidate_winv _ _ W1) eq_refl Hr'
+                     (invalidate_winv _ _ W1) eq_refl Hr'
                      (noforge_ext cf t (invalidate t1) k (ld_chains _ _ _ _ Ld) (ld_rc _ _ _ _ Ld) (ld_ins _ _ _ _ Ld) (ld_app _ _ _ _ Ld) NF)).
       simpl in IH. destruct IH as [IH1 IH2]. split; auto.
       intros Hres c. rewrite (IH2 Hres c). apply (tgt_ext cf t (invalidate t1) k c); apply Ld.
